@@ -67,7 +67,7 @@ var (
 		{Name: "Punct", Pattern: `[-[!@#$%^&*()+_={}\|:;"'<,>.?/]|]`},
 		{Name: "Whitespace", Pattern: `[ \t\n\r]+`},
 	})
-	graphqlParser = participle.MustBuild[graphqlFile](
+	graphqlParser = mustBuild[graphqlFile](
 		participle.Lexer(graphqlLexer),
 		participle.Elide("Comment", "Whitespace"),
 		participle.UseLookahead(2),
